@@ -343,9 +343,10 @@ ShowCallArg(a) == SP \o (CASE a.t = "id" -> Name(a.s) [] a.t = "mref" -> ShowMRe
 ShowAttr(a) == NL \o IND \o Name(a.key) \o Pun(":") \o SP \o (IF a.val.t = "str" THEN StrP(a.val.s) ELSE ShowE(a.val.e))
 FrameExprCmds == {"SET-FREQUENCY", "SET-PHASE", "SET-SCALE", "SHIFT-FREQUENCY", "SHIFT-PHASE"}
 
-\* timing.rs:33-66: without a frame name nothing separates the qubits from the duration, so a compound duration
-\* (infix, function call, literal with an imaginary part) is grouped in parentheses
-GroupDelayDuration(i) == i.frame_names = <<>> /\ (\/ i.duration.t \in {"inf", "fn"}
+\* timing.rs:33-70: without a frame name nothing separates the qubits from the duration, so a compound duration
+\* (infix, function call, literal with an imaginary part, anything under a prefix plus -- which prints nothing)
+\* is grouped in parentheses
+GroupDelayDuration(i) == i.frame_names = <<>> /\ (\/ i.duration.t \in {"inf", "fn", "pos"}
                                                   \/ (i.duration.t = "num" /\ ~i.duration.im.m.z))
 RECURSIVE PrintI(_)
 LineI(i)    == NL \o IND \o PrintI(i)
@@ -655,7 +656,9 @@ ReadDelay(ts, p) ==
 \* duration starts with tokens that can be qubits and what follows them is an expression of its own:
 \* `DELAY 0 2 - 1` is (qubits 0; duration 2 - 1) and (qubits 0 2; duration -1); `DELAY 0 sin(1)`, `DELAY q %x - 1`
 \* likewise; parse_delay returns the reading with more qubits.  Since /repo commit bf4c513 the writer groups compound
-\* durations (GroupDelayDuration), which leaves one family: a prefix plus (printed as nothing) over a function call.
+\* durations (GroupDelayDuration; since 57c1d21 also those under a prefix plus), and no value of the generators'
+\* alphabets is ambiguous any more: DelayAmbiguous stays as the declarative statement of what the writer must avoid,
+\* and the invariant NoAmbiguousDelay of the MC module demands that it is empty.
 QubitLike(k) == k.c \in {"int", "var", "id"}
 AmbiguousDuration(d) ==      \* d: the tokens of the printed duration
   \E n \in 1..(Len(d) - 1) : (\A j \in 1..n : QubitLike(d[j])) /\ ReadWholeExpr(SubSeq(d, n + 1, Len(d))).ok
